@@ -31,6 +31,8 @@ type variant struct {
 	// maxSteps is a fixed upper bound on the number of deliveries of the default run (the case list must
 	// not depend on measured quantities: certificate sizes differ between worker processes).
 	maxSteps int
+	// suitePoints are the contexts of a non-full variant.
+	suitePoints []int
 }
 
 var pskKey = []byte{0xAB, 0xC1, 0x23, 0x45, 0x67}
@@ -53,6 +55,7 @@ func allVariants() []variant {
 		return checks.Variant{Name: name, V13: true, C: v13(world.Cfg{Suites: []dtls.CipherSuiteID{id}}),
 			S: v13(world.Cfg{Suites: []dtls.CipherSuiteID{id}, SkipHelloVerify: true})}
 	}
+	p12, p13 := []int{4, 5, 6}, []int{3, 4, 5, 6}
 	return []variant{
 		{Variant: byName["12-cert"], full: true, kx: "ecdhe", maxSteps: 6},
 		{Variant: byName["12-psk"], full: true, kx: "psk", maxSteps: 6},
@@ -63,14 +66,14 @@ func allVariants() []variant {
 		{Variant: byName["13-direct"], full: true, kx: "13", maxSteps: 8},
 		{Variant: byName["13-hrr"], full: true, kx: "13", maxSteps: 11},
 		// one variant per remaining record-protection path ("for every cipher suite's decrypt path")
-		{Variant: suiteVariant("12-ccm", dtls.TLS_ECDHE_ECDSA_WITH_AES_128_CCM, false), kx: "ecdhe", maxSteps: 6},
-		{Variant: suiteVariant("12-ccm8", dtls.TLS_ECDHE_ECDSA_WITH_AES_128_CCM_8, false), kx: "ecdhe", maxSteps: 6},
-		{Variant: suiteVariant("12-cbcsha", dtls.TLS_ECDHE_ECDSA_WITH_AES_256_CBC_SHA, false), kx: "ecdhe", maxSteps: 6},
-		{Variant: suiteVariant("12-chacha", dtls.TLS_ECDHE_ECDSA_WITH_CHACHA20_POLY1305_SHA256, false), kx: "ecdhe", maxSteps: 6},
-		{Variant: suiteVariant("12-gcm384", dtls.TLS_ECDHE_ECDSA_WITH_AES_256_GCM_SHA384, false), kx: "ecdhe", maxSteps: 6},
-		{Variant: suiteVariant("12-pskcbc", dtls.TLS_PSK_WITH_AES_128_CBC_SHA256, true), kx: "psk", maxSteps: 6},
-		{Variant: s13("13-aes256", dtls.TLS_AES_256_GCM_SHA384), kx: "13", maxSteps: 8},
-		{Variant: s13("13-chacha", dtls.TLS_CHACHA20_POLY1305_SHA256), kx: "13", maxSteps: 8},
+		{Variant: suiteVariant("12-ccm", dtls.TLS_ECDHE_ECDSA_WITH_AES_128_CCM, false), kx: "ecdhe", maxSteps: 6, suitePoints: p12},
+		{Variant: suiteVariant("12-ccm8", dtls.TLS_ECDHE_ECDSA_WITH_AES_128_CCM_8, false), kx: "ecdhe", maxSteps: 6, suitePoints: p12},
+		{Variant: suiteVariant("12-cbcsha", dtls.TLS_ECDHE_ECDSA_WITH_AES_256_CBC_SHA, false), kx: "ecdhe", maxSteps: 6, suitePoints: p12},
+		{Variant: suiteVariant("12-chacha", dtls.TLS_ECDHE_ECDSA_WITH_CHACHA20_POLY1305_SHA256, false), kx: "ecdhe", maxSteps: 6, suitePoints: p12},
+		{Variant: suiteVariant("12-gcm384", dtls.TLS_ECDHE_ECDSA_WITH_AES_256_GCM_SHA384, false), kx: "ecdhe", maxSteps: 6, suitePoints: p12},
+		{Variant: suiteVariant("12-pskcbc", dtls.TLS_PSK_WITH_AES_128_CBC_SHA256, true), kx: "psk", maxSteps: 6, suitePoints: p12},
+		{Variant: s13("13-aes256", dtls.TLS_AES_256_GCM_SHA384), kx: "13", maxSteps: 8, suitePoints: p13},
+		{Variant: s13("13-chacha", dtls.TLS_CHACHA20_POLY1305_SHA256), kx: "13", maxSteps: 8, suitePoints: p13},
 	}
 }
 
